@@ -54,6 +54,7 @@ var invalidHeaderFields = [...]string{
 func parseHeaders(decodeFn qpack.DecodeFunc, isRequest bool, sizeLimit int, headerFields *[]qpack.HeaderField) (header, error) {
 	hdr := header{Headers: make(http.Header)}
 	var readFirstRegularHeader, readContentLength bool
+	var seenPseudo [6]bool // presence, not value: an empty first value must not hide a duplicate
 	var contentLengthStr string
 	for {
 		h, err := decodeFn()
@@ -85,22 +86,28 @@ func parseHeaders(decodeFn qpack.DecodeFunc, isRequest bool, sizeLimit int, head
 			var isDuplicatePseudoHeader bool // pseudo headers are allowed to appear exactly once
 			switch h.Name {
 			case ":path":
-				isDuplicatePseudoHeader = hdr.Path != ""
+				isDuplicatePseudoHeader = seenPseudo[0]
+				seenPseudo[0] = true
 				hdr.Path = h.Value
 			case ":method":
-				isDuplicatePseudoHeader = hdr.Method != ""
+				isDuplicatePseudoHeader = seenPseudo[1]
+				seenPseudo[1] = true
 				hdr.Method = h.Value
 			case ":authority":
-				isDuplicatePseudoHeader = hdr.Authority != ""
+				isDuplicatePseudoHeader = seenPseudo[2]
+				seenPseudo[2] = true
 				hdr.Authority = h.Value
 			case ":protocol":
-				isDuplicatePseudoHeader = hdr.Protocol != ""
+				isDuplicatePseudoHeader = seenPseudo[3]
+				seenPseudo[3] = true
 				hdr.Protocol = h.Value
 			case ":scheme":
-				isDuplicatePseudoHeader = hdr.Scheme != ""
+				isDuplicatePseudoHeader = seenPseudo[4]
+				seenPseudo[4] = true
 				hdr.Scheme = h.Value
 			case ":status":
-				isDuplicatePseudoHeader = hdr.Status != ""
+				isDuplicatePseudoHeader = seenPseudo[5]
+				seenPseudo[5] = true
 				hdr.Status = h.Value
 				isResponsePseudoHeader = true
 			default:
